@@ -1,0 +1,47 @@
+//go:build verif
+
+package symboldg
+
+// Contracts for gvc (see /verif/DESIGN.md). Comment-only: this file adds no code to any build.
+
+//@ func edgeMapKey props C17,C14 pure
+//@ ensures result == string(kind)+"::"+toBaseId
+
+//@ spec hasEdge(g *SymbolGraph, f string, k string) bool = indom(g.edges, f) && indom(g.edges[f], k)
+
+// Representation invariant: every stored edge is indexed under its source's base id and its (kind,target) key,
+// and is reflected in both adjacency indices (deps: source -> target key, revDeps: target -> source key).
+//@ spec edgeIndexed(g *SymbolGraph, f string, k string) bool = g.edges[f][k].Edge.From.BaseId() == f && k == edgeMapKey(g.edges[f][k].Edge.Kind, g.edges[f][k].Edge.To.BaseId()) && indom(g.deps, f) && indom(g.deps[f], g.edges[f][k].Edge.To) && indom(g.revDeps, g.edges[f][k].Edge.To.BaseId()) && indom(g.revDeps[g.edges[f][k].Edge.To.BaseId()], g.edges[f][k].Edge.From)
+// Inner maps are owned: no inner map is stored under two outer keys (or in both adjacency indices).
+//@ spec innerOwned(g *SymbolGraph) bool = forall(a, string, forall(b, string, implies(a != b && indom(g.edges, a) && indom(g.edges, b) && g.edges[a] != nil, g.edges[a] != g.edges[b]))) && forall(a, string, forall(b, string, implies(a != b && indom(g.deps, a) && indom(g.deps, b) && g.deps[a] != nil, g.deps[a] != g.deps[b]))) && forall(a, string, forall(b, string, implies(a != b && indom(g.revDeps, a) && indom(g.revDeps, b) && g.revDeps[a] != nil, g.revDeps[a] != g.revDeps[b]))) && forall(a, string, forall(b, string, implies(indom(g.deps, a) && indom(g.revDeps, b) && g.deps[a] != nil, g.deps[a] != g.revDeps[b])))
+//@ spec Inv(g *SymbolGraph) bool = g.edges != nil && g.deps != nil && g.revDeps != nil && g.lookupKeys != nil && g.deps != g.revDeps && innerOwned(g) && forall(f, string, forall(k, string, implies(hasEdge(g, f, k), edgeIndexed(g, f, k))))
+
+//@ func SymbolGraph.getAndIncrementNextEdgeOrdinal props C17,C14
+//@ requires g != nil
+//@ modifies g.nextEdgeSeq
+//@ ensures result == old(g.nextEdgeSeq) && g.nextEdgeSeq == old(g.nextEdgeSeq)+1
+
+//@ func SymbolGraph.AddEdge props C17,C19,C14
+//@ requires g != nil && Inv(g)
+//@ modifies g.nextEdgeSeq, any(elems(g.edges)), any(elems(g.deps)), any(elems(g.lookupKeys)), any(elems(g.edges[from.BaseId()])), any(elems(g.deps[from.BaseId()]))
+//@ ensures inv: Inv(g)
+//@ ensures view: forall(f, string, forall(k, string, hasEdge(g, f, k) == (old(hasEdge(g, f, k)) || (f == from.BaseId() && k == edgeMapKey(kind, to.BaseId())))))
+//@ ensures keep: forall(f, string, forall(k, string, implies(old(hasEdge(g, f, k)), g.edges[f][k] == old(g.edges[f][k]))))
+
+//@ spec removedKey(k string, kind *SymbolEdgeKind, toBase string) bool = ite(kind != nil, k == edgeMapKey(*kind, toBase), strings.HasSuffix(k, "::"+toBase))
+
+//@ func SymbolGraph.RemoveEdge props C17,C14
+//@ requires g != nil && Inv(g)
+//@ modifies any(elems(g.edges)), any(elems(g.deps)), any(elems(g.edges[from.BaseId()])), any(elems(g.deps[from.BaseId()]))
+//@ ensures view: forall(f, string, forall(k, string, hasEdge(g, f, k) == (old(hasEdge(g, f, k)) && !(f == from.BaseId() && removedKey(k, kind, to.BaseId())))))
+//@ ensures keep: forall(f, string, forall(k, string, implies(hasEdge(g, f, k), g.edges[f][k] == old(g.edges[f][k]))))
+//@ ensures inv: Inv(g)
+//@ loop 0 invariant forall(k, string, indom(inner, k) == (old(indom(g.edges[from.BaseId()], k)) && !(seen(k) && strings.HasSuffix(k, suffix))))
+//@ loop 0 invariant forall(f, string, forall(k, string, implies(f != from.BaseId(), hasEdge(g, f, k) == old(hasEdge(g, f, k)))))
+//@ loop 0 invariant forall(f, string, forall(k, string, implies(hasEdge(g, f, k), g.edges[f][k] == old(g.edges[f][k]))))
+//@ loop 0 invariant g.edges == old(g.edges) && indom(g.edges, from.BaseId()) && g.edges[from.BaseId()] == inner
+
+//@ func SymbolGraph.hasEdgeTo props C17,C14
+//@ requires g != nil
+//@ ensures result == exists(k, string, hasEdge(g, fromBase, k) && g.edges[fromBase][k].Edge.To.BaseId() == toBase)
+//@ loop 0 invariant forall(k, string, implies(seen(k) && hasEdge(g, fromBase, k), g.edges[fromBase][k].Edge.To.BaseId() != toBase))
